@@ -148,6 +148,12 @@ class CreateScaling(Unit):
         from ..qp import QuadProblem, Spec
         spec = Spec.from_json(case["spec"])
         prob = QuadProblem(spec, fmt=case["fmt"])
+        if spec.m == 0:
+            # an unconstrained problem need not define the constraint callbacks at all
+            def undefined(*a, **k):
+                raise NotImplementedError("this problem has no constraints")
+            prob.cons = undefined
+            prob.cons_jac = undefined
         st = [ScalingType.Nominal, ScalingType.GradJac, ScalingType.KKT][case["kind"]]
         params = Params(scaling_type=st, scaling_primal=np.array(case["xs"], dtype=float), scaling_dual=np.array(case["ys"], dtype=float))
         try:
